@@ -490,6 +490,153 @@ Section Std.
       fold im in G. lra.
   Qed.
 
+  (* ---- helpers with at most two roundings per component *)
+  Lemma one_w r x : Rabs (rnd r x - x) <= 2 * u * Rabs x.
+  Proof. pose proof (rnd_err r x). pose proof (Rabs_pos x). pose proof u_nonneg. nra. Qed.
+  Lemma exact_w x : Rabs (x - x) <= 2 * u * Rabs x.
+  Proof. replace (x - x) with 0 by ring. rewrite Rabs_R0. pose proof (Rabs_pos x). pose proof u_nonneg. nra. Qed.
+  Lemma set2_err r1 r2 x : Rabs (rnd r2 (rnd r1 x) - x) <= 2 * u * Rabs x.
+  Proof.
+    pose proof (rnd_step r2 _ _ _ (rnd_err r1 x)). pose proof (rnd_le r1 x). pose proof u_nonneg.
+    pose proof (Rabs_pos x). nra.
+  Qed.
+  Lemma negset_err r1 r2 x : Rabs (rnd r2 (- rnd r1 x) - - x) <= 2 * u * Rabs (- x).
+  Proof. apply neg_rnd_err. Qed.
+
+  (* ---- scaling an approximation by an exact factor m and rounding (mpc_mul_f / mpc_mul_ui after mpc_inv) *)
+  Lemma scale_err r xh e m k :
+    0 <= k -> k * u <= 1 -> Rabs (xh - e) <= k * u * Rabs e ->
+    Rabs (rnd r (xh * m) - e * m) <= (k + 2) * u * Rabs (e * m).
+  Proof.
+    intros Hk Hku H. pose proof u_nonneg as Hu. pose proof (Rabs_pos e) as Pe. pose proof (Rabs_pos m) as Pm.
+    assert (E : Rabs (xh * m - e * m) <= k * u * Rabs e * Rabs m).
+    { replace (xh * m - e * m) with ((xh - e) * m) by ring. rewrite Rabs_mult. apply Rmult_le_compat_r; lra. }
+    pose proof (rnd_step r _ _ _ E) as G.
+    pose proof (abs_le_of_err _ _ _ H) as B.
+    assert (B2 : Rabs xh <= 2 * Rabs e).
+    { assert (k * u * Rabs e <= 1 * Rabs e) by (apply Rmult_le_compat_r; lra). lra. }
+    assert (B3 : Rabs (xh * m) <= 2 * Rabs e * Rabs m) by (rewrite Rabs_mult; apply Rmult_le_compat_r; lra).
+    rewrite (Rabs_mult e m).
+    assert (u * Rabs (xh * m) <= u * (2 * Rabs e * Rabs m)) by (apply Rmult_le_compat_l; lra).
+    lra.
+  Qed.
+
+  (* componentwise form of inv_err *)
+  Lemma inv_comp (q1 q2 q3 q4 q5 q6 q7 q8 : reg) a b :
+    0 < a * a + b * b -> u <= / 16 ->
+    let n := a * a + b * b in
+    let nh := rnd q3 (rnd q1 (a * a) + rnd q2 (b * b)) in
+    let re := rnd q7 (rnd q4 a / nh) in let im := rnd q8 (rnd q6 (- rnd q5 b) / nh) in
+    Rabs (re - a / n) <= 6 * u * Rabs (a / n) /\ Rabs (im - - b / n) <= 6 * u * Rabs (- b / n).
+  Proof.
+    intros Hn Hu16 n nh re im. pose proof u_nonneg as Hu.
+    destruct (smod_bounds q1 q2 q3 a b ltac:(lra)) as [B1 B2]. fold n nh in B1, B2.
+    assert (Hd : 0 < (1 - u) * (1 - u)) by (apply Rmult_lt_0_compat; lra).
+    assert (Hnh : 0 < nh).
+    { assert (0 < n * ((1 - u) * (1 - u))) by (apply Rmult_lt_0_compat; assumption). lra. }
+    split.
+    - assert (X : Rabs (rnd q4 a - a) <= 1 * u * Rabs a) by (pose proof (rnd_err q4 a); lra).
+      pose proof (quot_err q7 (rnd q4 a) a nh n 1 Hn Hnh B1 B2 Hu16 ltac:(lra) X (rnd_le q4 a)) as G.
+      fold re in G. pose proof (Rabs_pos (a / n)). nra.
+    - destruct (neg_rnd_err q5 q6 b) as [Y1 Y2].
+      pose proof (quot_err q8 (rnd q6 (- rnd q5 b)) (- b) nh n 2 Hn Hnh B1 B2 Hu16 ltac:(lra) Y1 Y2) as G.
+      fold im in G. lra.
+  Qed.
+
+  (* mpc_f_div / mpc_ui_div (after the fix): inv, then both components scaled by m *)
+  Theorem inv_scale_err (q1 q2 q3 q4 q5 q6 q7 q8 r1 r2 : reg) a b m :
+    0 < a * a + b * b -> u <= / 16 ->
+    let n := a * a + b * b in
+    let nh := rnd q3 (rnd q1 (a * a) + rnd q2 (b * b)) in
+    let tr := rnd q7 (rnd q4 a / nh) in let ti := rnd q8 (rnd q6 (- rnd q5 b) / nh) in
+    let re := rnd r1 (tr * m) in let im := rnd r2 (ti * m) in
+    (re - a / n * m) * (re - a / n * m) + (im - - b / n * m) * (im - - b / n * m)
+      <= (8 * u) * (8 * u) * (a / n * m * (a / n * m) + - b / n * m * (- b / n * m)).
+  Proof.
+    intros Hn Hu16 n nh tr ti re im. pose proof u_nonneg as Hu.
+    destruct (inv_comp q1 q2 q3 q4 q5 q6 q7 q8 a b Hn Hu16) as [C1 C2]. fold n nh tr ti in C1, C2.
+    apply cmod_from_components; [lra | |].
+    - pose proof (scale_err r1 tr (a / n) m 6 ltac:(lra) ltac:(lra) C1). fold re in H. lra.
+    - pose proof (scale_err r2 ti (- b / n) m 6 ltac:(lra) ltac:(lra) C2). fold im in H. lra.
+  Qed.
+
+  (* ---- mpc_inv2: f = rnd (1 / nh); components multiplied by f *)
+  Lemma quot2_err r rf x a nh n k :
+    0 < n -> 0 < nh -> nh <= n -> n * ((1 - u) * (1 - u)) <= nh -> u <= / 16 -> 0 <= k <= 2 ->
+    Rabs (x - a) <= k * u * Rabs a -> Rabs x <= Rabs a ->
+    Rabs (rnd r (x * rnd rf (1 / nh)) - a / n) <= (k + 5) * u * Rabs (a / n).
+  Proof.
+    intros Hn Hnh B1 B2 Hu16 Hk Hx Bx. pose proof u_nonneg as Hu.
+    set (w := / nh). set (v := / n). set (d := (1 - u) * (1 - u)) in *.
+    assert (Hw : 0 < w) by (apply Rinv_0_lt_compat; exact Hnh).
+    assert (Hv : 0 < v) by (apply Rinv_0_lt_compat; exact Hn).
+    assert (Ew : nh * w = 1) by (unfold w; field; lra).
+    assert (Ev : n * v = 1) by (unfold v; field; lra).
+    assert (Vw : v <= w) by (apply Rinv_le_contravar; assumption).
+    assert (Dw : d * w <= v).
+    { assert (G : n * d * (w * v) <= nh * (w * v)) by (apply Rmult_le_compat_r; [apply Rmult_le_pos; lra | exact B2]).
+      replace (n * d * (w * v)) with (d * w * (n * v)) in G by ring.
+      replace (nh * (w * v)) with (v * (nh * w)) in G by ring. rewrite Ev, Ew in G. lra. }
+    assert (Hd : 225 / 256 <= d).
+    { unfold d. assert (15 / 16 <= 1 - u) by lra.
+      replace (225 / 256) with ((15 / 16) * (15 / 16)) by field. apply Rmult_le_compat; lra. }
+    assert (Wv : w - v <= 2 * u * w).
+    { assert (w - v <= w - d * w) by lra. assert (w - d * w = (2 * u - u * u) * w) by (unfold d; ring).
+      pose proof (sq_nonneg u). assert (0 <= u * u * w) by (apply Rmult_le_pos; lra). lra. }
+    replace (1 / nh) with w by (unfold w, Rdiv; ring). unfold Rdiv. fold v.
+    set (f := rnd rf w).
+    assert (F1 : Rabs (f - w) <= u * w) by (pose proof (rnd_err rf w) as G; rewrite (Rabs_right w) in G by lra; exact G).
+    assert (F2 : Rabs f <= w) by (pose proof (rnd_le rf w) as G; rewrite (Rabs_right w) in G by lra; exact G).
+    assert (F3 : Rabs (f - v) <= 3 * u * w).
+    { pose proof (Rabs_triang3 f w v). rewrite (Rabs_right (w - v)) in H by lra. lra. }
+    pose proof (Rabs_pos a) as Pa. pose proof (Rabs_pos f) as Pf.
+    assert (E : Rabs (x * f - a * v) <= (k + 3) * u * (Rabs a * w)).
+    { replace (x * f - a * v) with ((x - a) * f + a * (f - v)) by ring.
+      eapply Rle_trans; [apply Rabs_triang|]. rewrite !Rabs_mult.
+      assert (Rabs (x - a) * Rabs f <= k * u * Rabs a * w).
+      { apply Rmult_le_compat; try lra. apply Rabs_pos. }
+      assert (Rabs a * Rabs (f - v) <= Rabs a * (3 * u * w)) by (apply Rmult_le_compat_l; lra).
+      lra. }
+    pose proof (rnd_step r _ _ _ E) as G.
+    assert (Bxf : Rabs (x * f) <= Rabs a * w).
+    { rewrite Rabs_mult. apply Rmult_le_compat; try lra. apply Rabs_pos. }
+    rewrite Rabs_mult, (Rabs_right v) by lra.
+    assert (Paw : 0 <= Rabs a * w) by (apply Rmult_le_pos; lra).
+    assert (S1 : Rabs (rnd r (x * f) - a * v) <= (k + 4) * u * (Rabs a * w)).
+    { assert (u * Rabs (x * f) <= u * (Rabs a * w)) by (apply Rmult_le_compat_l; lra). lra. }
+    assert (S2 : (k + 4) * w <= (k + 5) * v).
+    { assert ((k + 5) * (d * w) <= (k + 5) * v) by (apply Rmult_le_compat_l; lra).
+      assert (0 <= ((k + 5) * d - (k + 4)) * w).
+      { apply Rmult_le_pos; [|lra]. assert ((k + 5) * (225 / 256) <= (k + 5) * d) by (apply Rmult_le_compat_l; lra). lra. }
+      lra. }
+    assert (S3 : u * Rabs a * ((k + 4) * w) <= u * Rabs a * ((k + 5) * v)).
+    { apply Rmult_le_compat_l; [apply Rmult_le_pos; lra | exact S2]. }
+    lra.
+  Qed.
+
+  Theorem inv2_err (q1 q2 q3 q4 q5 q6 q7 q8 qf : reg) a b :
+    0 < a * a + b * b -> u <= / 16 ->
+    let n := a * a + b * b in
+    let nh := rnd q3 (rnd q1 (a * a) + rnd q2 (b * b)) in
+    let f := rnd qf (1 / nh) in
+    let re := rnd q7 (rnd q4 a * f) in let im := rnd q8 (rnd q6 (- rnd q5 b) * f) in
+    (re - a / n) * (re - a / n) + (im - - b / n) * (im - - b / n)
+      <= (7 * u) * (7 * u) * (a / n * (a / n) + - b / n * (- b / n)).
+  Proof.
+    intros Hn Hu16 n nh f re im. pose proof u_nonneg as Hu.
+    destruct (smod_bounds q1 q2 q3 a b ltac:(lra)) as [B1 B2]. fold n nh in B1, B2.
+    assert (Hd : 0 < (1 - u) * (1 - u)) by (apply Rmult_lt_0_compat; lra).
+    assert (Hnh : 0 < nh).
+    { assert (0 < n * ((1 - u) * (1 - u))) by (apply Rmult_lt_0_compat; assumption). lra. }
+    apply cmod_from_components; [lra | |].
+    - assert (X : Rabs (rnd q4 a - a) <= 1 * u * Rabs a) by (pose proof (rnd_err q4 a); lra).
+      pose proof (quot2_err q7 qf (rnd q4 a) a nh n 1 Hn Hnh B1 B2 Hu16 ltac:(lra) X (rnd_le q4 a)) as G.
+      fold f re in G. pose proof (Rabs_pos (a / n)). nra.
+    - destruct (neg_rnd_err q5 q6 b) as [Y1 Y2].
+      pose proof (quot2_err q8 qf (rnd q6 (- rnd q5 b)) (- b) nh n 2 Hn Hnh B1 B2 Hu16 ltac:(lra) Y1 Y2) as G.
+      fold f im in G. lra.
+  Qed.
+
   (* ---- quotient as in mpc_div: t = inv (c2); rc = mul (c1, t) (3-multiplication product) *)
   Theorem div_err (q1 q2 q3 q4 q5 q6 q7 q8 r1 r2 r3 r4 r5 r6 r7 r8 : reg) a b c d :
     0 < c * c + d * d -> u <= / 128 ->
